@@ -22,16 +22,16 @@ import (
 // ---- C20: the CLI prints exactly the library's result for each input file --------
 
 var c20Files = map[string]string{
-	"g1.xml":   "<?xml version=\"1.0\"?>\n<r xmlns:p=\"urn:u\" x=\"1\"><a y=\"l1&#10;l2\">t&amp;&lt;x\nline2</a><p:b p:z=\"3\">two</p:b><!-- c1 --><?pi d1?><a/></r>",
-	"g2.xml":   "<doc><a>alpha</a><a>beta</a><b><a>gamma</a></b></doc>",
-	"g3.xml":   "<r><!-- c\nd --><?pi a\nb?><a>x</a></r>",
-	"g4.xml":   "<r><e/><e>two</e><e a=\"\">three</e><!----><a></a><a>last</a></r>",
-	"d.json":   `{"a": [1, 2.5, "x"], "b": {"a": true}}`,
-	"p.html":   "<!doctype html><html><body><a href=\"u\">link</a><p>para<b>bold</b></p><!--hc--></body></html>",
-	"bad.xml":  "<r><a></r>",
-	"n.txt":    "<r><a>text file</a></r>",
-	"noext":    "<r><a>no extension</a></r>",
-	"bad.json": `{"a": [1, 2`,
+	"g1.xml":         "<?xml version=\"1.0\"?>\n<r xmlns:p=\"urn:u\" x=\"1\"><a y=\"l1&#10;l2\">t&amp;&lt;x\nline2</a><p:b p:z=\"3\">two</p:b><!-- c1 --><?pi d1?><a/></r>",
+	"g2.xml":         "<doc><a>alpha</a><a>beta</a><b><a>gamma</a></b></doc>",
+	"g3.xml":         "<r><!-- c\nd --><?pi a\nb?><a>x</a></r>",
+	"g4.xml":         "<r><e/><e>two</e><e a=\"\">three</e><!----><a></a><a>last</a></r>",
+	"d.json":         `{"a": [1, 2.5, "x"], "b": {"a": true}}`,
+	"p.html":         "<!doctype html><html><body><a href=\"u\">link</a><p>para<b>bold</b></p><!--hc--></body></html>",
+	"bad.xml":        "<r><a></r>",
+	"n.txt":          "<r><a>text file</a></r>",
+	"noext":          "<r><a>no extension</a></r>",
+	"bad.json":       `{"a": [1, 2`,
 	"nodoctype.html": "<p>no doctype</p>",
 }
 
